@@ -58,7 +58,7 @@ def extra(chk, pkg):
     in a fresh interpreter (about 1.5 s per call), compared with the model and judged by the oracle"""
     if chk.tier != "thorough":
         return
-    n = int(os.environ.get("VERIF_C04_CLI_CASES", "700"))
+    n = int(os.environ.get("VERIF_C04_CLI_CASES", "200"))
     cases = [setops.gen_case(chk.rng, "cli") for _ in range(n)]
     procs = 16
     chunks = [cases[i::procs] for i in range(procs)]
